@@ -6,6 +6,7 @@ import (
 	"context"
 	"encoding/base64"
 	"errors"
+	"hash/fnv"
 	"mime"
 	"net/http"
 	"net/url"
@@ -28,6 +29,11 @@ import (
 //	  the real client (client.Runtime.CreateHttpRequest with the writers under test) builds the request,
 //	  it is serialised (Request.Write) and re-read (http.ReadRequest), and the real authenticator is
 //	  called on it with a recording callback.
+//	  Choices among equivalent ways of doing the same thing are drawn from a hash of the case's own fields
+//	  (c14Bits) and are no model input: request built by CreateHttpRequest or sent by Submit (Debug on/off)
+//	  into a recording RoundTripper; Compose flat or nested; the writer / the authenticator fresh or already
+//	  used once on a decoy; what a "foreign" parameter is; where a static query parameter that the caller's
+//	  credential overrides sits (base path, path pattern, both).
 //	B <url 0|1> E <bytes>  => <encoding>            base64.{Std,URL}Encoding.EncodeToString
 //	B <url 0|1> D <bytes>  => <ok 0|1> <decoded>    base64.{Std,URL}Encoding.DecodeString
 //	K <name>               => <canonical name>      http.CanonicalHeaderKey
@@ -101,7 +107,18 @@ func c14Writer(l []string) runtime.ClientAuthInfoWriter {
 		return nil
 	}
 	if l[0] == "compose" {
-		return client.Compose(c14Atoms(l[1:])...)
+		as := c14Atoms(l[1:])
+		if k := int(c14Bits(l) % 4); len(as) >= 2 && k > 0 {
+			// Compose is associative (an error ends everything after it, nil entries are skipped at any depth)
+			if k >= len(as) {
+				k = len(as) - 1
+			}
+			if k == 3 {
+				return client.Compose(client.Compose(client.Compose(as[:1]...), client.Compose(as[1:]...)))
+			}
+			return client.Compose(client.Compose(as[:k]...), client.Compose(as[k:]...))
+		}
+		return client.Compose(as...)
 	}
 	as := c14Atoms(l)
 	if len(as) != 1 {
@@ -109,6 +126,25 @@ func c14Writer(l []string) runtime.ClientAuthInfoWriter {
 	}
 	return as[0]
 }
+
+// c14Bits: a hash of the case's own fields, the source of every choice that is not a model input.
+func c14Bits(fields []string) uint32 {
+	h := fnv.New32a()
+	for _, f := range fields {
+		_, _ = h.Write([]byte(f))
+		_, _ = h.Write([]byte{0})
+	}
+	return h.Sum32()
+}
+
+type c14RT func(*http.Request) (*http.Response, error)
+
+func (f c14RT) RoundTrip(r *http.Request) (*http.Response, error) { return f(r) }
+
+type c14NoLog struct{}
+
+func (c14NoLog) Printf(string, ...interface{}) {}
+func (c14NoLog) Debugf(string, ...interface{}) {}
 
 type c14Group struct {
 	key  string
@@ -161,10 +197,35 @@ func c14ExecR(in []string) []string {
 	// --- client: the real runtime builds the request
 	// a query parameter fixed in the base path under the very name of a query-located API key: the
 	// credential the writer attaches is the caller's and wins (one case in three with such a key)
-	base := "/"
+	bits := c14Bits(in)
+	var baseQ, patQ []string
+	static := func(name string, where uint32) {
+		// the base path and the path pattern may both carry static query parameters; whatever the caller
+		// sets under the same name replaces them all
+		if where != 1 {
+			baseQ = append(baseQ, url.QueryEscape(name)+"=static-anonymous")
+		}
+		if where != 0 {
+			patQ = append(patQ, url.QueryEscape(name)+"=static-pattern")
+		}
+	}
 	if spec := proto.UnL(in[8]); (len(pid)+len(hk))%3 != 1 && len(spec) == 4 && spec[0] == "apikey" && spec[2] == "query" {
 		// (only where the operation's own writer is that key: it is then certainly written)
-		base = "/?" + url.QueryEscape(spec[1]) + "=static-anonymous"
+		static(spec[1], (bits>>4)%3)
+	}
+	for _, k := range qk {
+		if k == "access_token" && (bits>>6)%2 == 1 {
+			// the same for a bearer token the parameters put into the query
+			static(k, (bits>>7)%3)
+			break
+		}
+	}
+	base, pattern := "/", "/p"
+	if len(baseQ) > 0 {
+		base += "?" + strings.Join(baseQ, "&")
+	}
+	if len(patQ) > 0 {
+		pattern += "?" + strings.Join(patQ, "&")
 	}
 	rt := client.New("localhost", base, []string{"http"})
 	rt.DefaultAuthentication = dfW
@@ -187,7 +248,7 @@ func c14ExecR(in []string) []string {
 		}
 		return nil
 	})
-	op := &runtime.ClientOperation{ID: "op", Method: method, PathPattern: "/p", ProducesMediaTypes: []string{runtime.JSONMime},
+	op := &runtime.ClientOperation{ID: "op", Method: method, PathPattern: pattern, ProducesMediaTypes: []string{runtime.JSONMime},
 		ConsumesMediaTypes: []string{cmt}, Schemes: []string{"http"}, Params: params, AuthInfo: opW}
 	if len(in[9])%2 == 1 || len(pid)%2 == 1 {
 		// a Runtime serves many requests and its default credential may be rotated between them: on about
@@ -198,38 +259,72 @@ func c14ExecR(in []string) []string {
 		warm.AuthInfo = nil
 		_, _ = rt.CreateHttpRequest(&warm)
 		rt.DefaultAuthentication = dfW
-	}
-	req, err := rt.CreateHttpRequest(op)
-	if err != nil {
-		return []string{"CREATEERR"}
-	}
-	// the same media type in another legal spelling (parameters, letter case, blank before ';'): what a
-	// server parses out of it is the same
-	if ct := req.Header.Get("Content-Type"); (mtype == "1" || mtype == "2") && ct != "" && (len(pid)+len(fk))%3 == 1 {
-		mt, rest, _ := strings.Cut(ct, ";")
-		switch len(fv) % 3 {
-		case 0:
-			ct = mt + "; charset=UTF-8"
-			if rest != "" {
-				ct = mt + ";" + rest + "; charset=UTF-8"
-			}
-		case 1:
-			ct = strings.ToUpper(mt[:1]) + mt[1:]
-			if rest != "" {
-				ct += " ;" + rest
-			}
-		default:
-			ct = strings.ToUpper(mt)
-			if rest != "" {
-				ct += ";" + rest
-			}
+		if (bits>>9)%2 == 1 {
+			// writers are values a caller keeps and attaches to one operation after another: the ones under
+			// test have then already written their credential into another request (one without parameters)
+			used := *op
+			used.Params = runtime.ClientRequestWriterFunc(func(runtime.ClientRequest, strfmt.Registry) error { return nil })
+			_, _ = rt.CreateHttpRequest(&used)
 		}
-		req.Header.Set("Content-Type", ct)
 	}
-	// --- wire
 	var wire bytes.Buffer
-	if err := req.Write(&wire); err != nil {
-		return []string{"WIREERR", proto.B(err.Error())}
+	respell := func(req *http.Request) {
+		// the same media type in another legal spelling (parameters, letter case, blank before ';'): what a
+		// server parses out of it is the same
+		if ct := req.Header.Get("Content-Type"); (mtype == "1" || mtype == "2") && ct != "" && (len(pid)+len(fk))%3 == 1 {
+			mt, rest, _ := strings.Cut(ct, ";")
+			switch len(fv) % 3 {
+			case 0:
+				ct = mt + "; charset=UTF-8"
+				if rest != "" {
+					ct = mt + ";" + rest + "; charset=UTF-8"
+				}
+			case 1:
+				ct = strings.ToUpper(mt[:1]) + mt[1:]
+				if rest != "" {
+					ct += " ;" + rest
+				}
+			default:
+				ct = strings.ToUpper(mt)
+				if rest != "" {
+					ct += ";" + rest
+				}
+			}
+			req.Header.Set("Content-Type", ct)
+		}
+	}
+	// --- wire: the request as CreateHttpRequest returns it, or as Submit hands it to the transport
+	if bits%3 == 0 {
+		sent, wireErr := false, error(nil)
+		rt.Transport = c14RT(func(req *http.Request) (*http.Response, error) {
+			sent = true
+			respell(req)
+			wireErr = req.Write(&wire)
+			return &http.Response{StatusCode: http.StatusNoContent, Status: "204 No Content", Proto: "HTTP/1.1", ProtoMajor: 1, ProtoMinor: 1,
+				Header: http.Header{}, Body: http.NoBody, Request: req}, nil
+		})
+		rt.SetLogger(c14NoLog{})
+		rt.Debug = (bits>>2)%2 == 1 // the dump of the outgoing request must leave it as it was
+		op.Reader = runtime.ClientResponseReaderFunc(func(runtime.ClientResponse, runtime.Consumer) (interface{}, error) { return nil, nil })
+		_, err := rt.Submit(op)
+		if !sent {
+			if err == nil {
+				panic("C14: Submit succeeded without sending")
+			}
+			return []string{"CREATEERR"}
+		}
+		if wireErr != nil {
+			return []string{"WIREERR", proto.B(wireErr.Error())}
+		}
+	} else {
+		req, err := rt.CreateHttpRequest(op)
+		if err != nil {
+			return []string{"CREATEERR"}
+		}
+		respell(req)
+		if err := req.Write(&wire); err != nil {
+			return []string{"WIREERR", proto.B(err.Error())}
+		}
 	}
 	raw := wire.Bytes()
 	r1, err := http.ReadRequest(bufio.NewReader(bytes.NewReader(raw)))
@@ -352,7 +447,42 @@ func c14ExecR(in []string) []string {
 	case "1":
 		param = &security.ScopedAuthRequest{Request: r2, RequiredScopes: scopes}
 	default:
-		param = "not a request"
+		// anything that is neither of the two pointer types is foreign to every authenticator
+		switch (bits >> 10) % 6 {
+		case 0:
+			param = "not a request"
+		case 1:
+			param = nil
+		case 2:
+			param = *r2 //nolint:govet // a request by value
+		case 3:
+			param = security.ScopedAuthRequest{Request: r2, RequiredScopes: scopes}
+		case 4:
+			param = &r2
+		default:
+			param = (*int)(nil)
+		}
+	}
+	if (bits>>13)%2 == 1 {
+		// an authenticator is built once and asked about every request: this one has already answered for a
+		// decoy request that carried other credentials at every place it looks at
+		decoy, _ := http.NewRequest(http.MethodPost, "/decoy?access_token=decoy-query&"+url.QueryEscape(keyName)+"=decoy-key",
+			strings.NewReader("access_token=decoy-form"))
+		decoy.Header.Set("Content-Type", runtime.URLencodedFormMime)
+		if srv[0] == "bearer" {
+			decoy.Header.Set("Authorization", "Bearer decoy-header")
+		} else {
+			decoy.SetBasicAuth("decoy-user", "decoy:password")
+		}
+		if srv[0] == "apikey" {
+			decoy.Header[http.CanonicalHeaderKey(keyName)] = []string{"decoy-key"}
+		}
+		var dp interface{} = decoy
+		if pk == "1" {
+			dp = &security.ScopedAuthRequest{Request: decoy, RequiredScopes: []string{"decoy-scope"}}
+		}
+		_, _, _ = auth.Authenticate(dp)
+		*rec = c14Rec{}
 	}
 	applies, got, aerr := auth.Authenticate(param)
 
@@ -375,6 +505,14 @@ func c14ExecR(in []string) []string {
 	// a Ctx callback's context must be the request's afterwards, and BearerAuthCtx's callback must
 	// have seen the scheme name: both are folded into the marker fields (a mismatch shows as "!…")
 	oauth := security.OAuth2SchemeName(r2)
+	failed := security.FailedBasicAuth(r2)
+	// the two markers through their context-based readers
+	if v := security.OAuth2SchemeNameCtx(r2.Context()); v != oauth {
+		oauth = "!ctx-reader:" + v
+	}
+	if v := security.FailedBasicAuthCtx(r2.Context()); v != failed {
+		failed = "!ctx-reader:" + v
+	}
 	if ctxVariant && rec.called {
 		if v, _ := r2.Context().Value(c14CtxKey{}).(string); v != "seen" {
 			oauth = "!ctx-lost:" + oauth
@@ -384,7 +522,7 @@ func c14ExecR(in []string) []string {
 		}
 	}
 	return append(view, proto.Bool(applies), proto.B(gotP), errCode, proto.Bool(rec.called), proto.L(rec.args), proto.L(rec.scopes),
-		proto.B(security.FailedBasicAuth(r2)), proto.B(oauth))
+		proto.B(failed), proto.B(oauth))
 }
 
 // ---- generators ---------------------------------------------------------------------------------
@@ -492,6 +630,10 @@ func (c *c14Case) emit(emit func(in ...string)) {
 
 func c14Base(r *proto.Rng) *c14Case {
 	c := &c14Case{method: r.Pick("GET", "POST", "POST", "PUT", "PATCH", "DELETE"), mtype: 0, pk: 1}
+	if r.Chance(1, 8) {
+		// methods without a body of their own, and spellings net/http does not take for POST/PUT/PATCH
+		c.method = r.Pick("HEAD", "OPTIONS", "post", "Put", "TRACE", "QUERY")
+	}
 	if r.Chance(1, 3) {
 		c.pk = 0
 	}
